@@ -59,6 +59,10 @@ pub enum Prov {
     Inst(Box<Prov>, BTreeMap<String, Prov>),
     /// alias of an export of an instance
     Alias(Box<Prov>, String),
+    /// the k-th (k >= 1) further instantiation that is written exactly like an earlier one: two
+    /// instantiations of one component with the same arguments are still two instances (their
+    /// resources and state are distinct). Only produced by `decode_siblings`.
+    Nth(u32, Box<Prov>),
     /// n-th locally defined type (compared through export names, not by number)
     TypeDef(u32),
     /// instance built from local items
@@ -114,7 +118,18 @@ pub fn sha256_hex(data: &[u8]) -> String {
 /// Reads `bytes` (which must already be known to validate). Errors are reader errors of
 /// this harness' walk (unsupported construct), not verdicts.
 pub fn decode(bytes: &[u8]) -> Result<Decoded, String> {
+    decode_with(bytes, None)
+}
+
+/// Like `decode`, but instantiations written identically (equal after `norm`, the caller's
+/// identification of names) are told apart by their order of emission (`Prov::Nth`).
+pub fn decode_siblings(bytes: &[u8], norm: &dyn Fn(&Prov) -> Prov) -> Result<Decoded, String> {
+    decode_with(bytes, Some(norm))
+}
+
+fn decode_with(bytes: &[u8], siblings: Option<&dyn Fn(&Prov) -> Prov>) -> Result<Decoded, String> {
     let mut d = Decoded::default();
+    let mut plain_insts: Vec<Prov> = Vec::new();
     let mut sp = Spaces::default();
     let mut depth = 0usize;
     let mut typedefs = 0u32;
@@ -198,6 +213,19 @@ pub fn decode(bytes: &[u8]) -> Result<Decoded, String> {
                                 }
                             }
                             let p = Prov::Inst(Box::new(comp), m);
+                            let p = match siblings {
+                                None => p,
+                                Some(norm) => {
+                                    let np = norm(&p);
+                                    let earlier = plain_insts.iter().filter(|q| **q == np).count() as u32;
+                                    plain_insts.push(np);
+                                    if earlier > 0 {
+                                        Prov::Nth(earlier, Box::new(p))
+                                    } else {
+                                        p
+                                    }
+                                }
+                            };
                             d.instantiations.push(p.clone());
                             d.emission.push("instantiate".to_string());
                             sp.instances.push(p);
